@@ -15,7 +15,7 @@ func init() {
 	register(&Property{
 		ID:          "C04",
 		Run:         runC04,
-		Explanation: "Decides the ordering mechanisms' structural clauses: (R1) v1 ticket discipline — a ticket is taken in the node's own goroutine before the handlers are registered and before the message is sent on, both handlers acquire that very ticket before touching the source or the DLQ and release it on every exit; (R2) the fail latch gates every forward and is set by the deferred function whenever the handler fails; (R3) v2 fan-out tally — every access under the mutex, `released` advanced only in releaseLocked after a successful parent call made WITH the mutex held, never past a non-terminal position; (R4) the tainted-batch loop advances by a span captured before any task sees the sub-batch, spawns no goroutine, and fan-out branches are joined; (R5) the connector's pending/deferred queues are append-at-tail / consume-from-head / nil-swap only (no aliasing reslice) under ackMu with a single delivery goroutine.",
+		Explanation: "Decides the ordering mechanisms' structural clauses: (R1) v1 ticket discipline — a ticket is taken in the node's own goroutine before the handlers are registered and before the message is sent on, both handlers acquire that very ticket before touching the source or the DLQ and release it on every exit; (R2) the fail latch gates every forward and is set by the deferred function whenever the handler fails; (R3) v2 fan-out tally — every access under the mutex, `released` advanced only in releaseLocked after a successful parent call made WITH the mutex held, never past a non-terminal position; (R4) the tainted-batch loop advances by a span captured before any task sees the sub-batch, spawns no goroutine, and fan-out branches are joined; (R5) the connector's pending/deferred queues are append-at-tail / consume-from-head / nil-swap only (no aliasing reslice) under ackMu with a single delivery goroutine. Rules added later (after independent seeded changes and defect hunts) are not all enumerated here: every armed rule is listed with its description, kind and instance count under coverage.rules.",
 		NotDecided:  []string{"semaphore.Simple's own FIFO guarantee (library)", "actual completion orders", "that positions are distinct values"},
 		Assumptions: []string{"semaphore.Simple grants tickets in Enqueue order", "sync.Mutex"},
 	})
